@@ -231,6 +231,24 @@ class H2Server:
         else:
             self.errors.append(f"unexpected frame {name}")
 
+    def _goaway_processed(self):
+        """The caller that read the GOAWAY bytes has been resumed past that read (it issued a later op), or is the one writing now."""
+        off = self.goaway_sent.get("sent_offset")
+        if off is None:
+            return False
+        trace = self.world.trace
+        reader = None
+        for op in trace:
+            if op["kind"] == "read" and op["pipe"] == self.pipe.id and op.get("n") and op["r_off"] + op["n"] >= off:
+                reader = op
+                break
+        if reader is None:
+            return False
+        cur = trace[-1]  # the write op that delivers these HEADERS
+        if cur["actor"] == reader["actor"]:
+            return True
+        return any(op["actor"] == reader["actor"] and op["seq"] > reader["seq"] for op in trace[-300:])
+
     def _open_count(self):
         return sum(1 for s in self.streams.values() if not (s["closed_in"] and s["closed_out"]))
 
@@ -259,8 +277,9 @@ class H2Server:
             self.violations.append(("max-concurrent-streams",
                                     f"stream {sid} opened while {open_before} streams were open; limit in force "
                                     f"{limit} (ACKed MAX_CONCURRENT_STREAMS={self.mcs_acked})"))
-        if self.goaway_sent is not None and self.goaway_processed_seq is not None:
-            self.violations.append(("new-stream-after-goaway", f"stream {sid} opened after the client had processed GOAWAY"))
+        if self.goaway_sent is not None and self._goaway_processed():
+            self.violations.append(("new-stream-after-goaway", f"stream {sid} opened on pipe {self.pipe.id} after the client had processed "
+                                    f"GOAWAY(last_stream_id={self.goaway_sent['last']})"))
         hd = dict(headers)
         token = None
         for n, v in headers:
@@ -378,11 +397,17 @@ class H2Server:
             fr = hf.PingFrame(0, opaque_data=bytes(act["ping"]) if not isinstance(act["ping"], bool) else b"12345678")
             self._enqueue(0, fr.serialize(), 0, "PING")
         elif "goaway" in act:
+            if self.goaway_sent is not None:
+                return  # one GOAWAY per connection (a later one may not raise last-stream-id anyway)
             g = act["goaway"]
             last = g.get("last", 0)
             if isinstance(last, str):
                 top = self.last_client_sid
                 last = {"zero": 0, "below": max(top - 2, 0), "equal": top, "above": top + 2, "first": 1}[last]
+            # a truthful server: last-stream-id is never below a stream it has already started to answer
+            answered = [sid for sid, st in self.streams.items() if st["responded"]]
+            if answered:
+                last = max(last, max(answered))
             fr = hf.GoAwayFrame(0, last_stream_id=last, error_code=g.get("code", 0))
             self.goaway_sent = {"last": last, "code": g.get("code", 0), "seq": self.world.seq,
                                 "sent_offset": None}
